@@ -196,7 +196,14 @@ pub fn tracer_main(args: &[String]) -> i32 {
     let si: usize = args.get(1).and_then(|s| s.parse().ok()).unwrap_or(0);
     let ri: usize = args.get(2).and_then(|s| s.parse().ok()).unwrap_or(0);
     let variants: Vec<usize> = args.get(3).map(|s| s.split(',').filter_map(|x| x.parse().ok()).collect()).unwrap_or_default();
-    crate::env::set_log_mode(crate::env::LOG_OFF);
+    // logger: off (default), or installed at Debug level and formatting every record it receives
+    let debug_logger = args.get(4).map(|s| s.as_str()) == Some("debug");
+    if debug_logger {
+        crate::env::set_log_mode_level(crate::env::LOG_FORMAT, log::LevelFilter::Debug);
+        crate::env::FORMAT_LOGS.with(|f| f.set(true));
+    } else {
+        crate::env::set_log_mode(crate::env::LOG_OFF);
+    }
     let secret = SECRETS[si];
     let (name, wire, sig, cfg) = requests(secret)[ri].clone();
     let prov = ProvSpec::Derive(vec![(e2e::ACCESS_KEY.to_string(), secret.to_string())]);
@@ -285,7 +292,7 @@ pub fn tracer_main(args: &[String]) -> i32 {
     for (n, r) in results.iter().enumerate() {
         println!(
             "{}",
-            json!({"request": name, "secret": si, "variant": r.variant, "role": if n == 0 { "reference" } else if n == 1 { "reference-repeat" } else if n == 2 { "reference-upper" } else { "variant" },
+            json!({"request": name, "secret": si, "logger": if debug_logger { "debug" } else { "off" }, "variant": r.variant, "role": if n == 0 { "reference" } else if n == 1 { "reference-repeat" } else if n == 2 { "reference-upper" } else { "variant" },
                    "steps": r.steps, "hash": format!("{:016x}", r.hash), "first_divergence": r.first_divergence,
                    "rip_reference_offset": format!("{:#x}", r.rip_ref.wrapping_sub(base)), "rip_observed_offset": format!("{:#x}", r.rip_got.wrapping_sub(base)),
                    "refused": r.refused, "child_code": codes[n], "signature": variant(&sig, r.variant)})
@@ -327,15 +334,25 @@ pub fn run(ctx: &Ctx) -> Report {
         vec![(0, 0)]
     };
     // 0..63 only position p wrong; 64..127 positions p.. wrong; 128..191 only p wrong, written in upper case
-    let variants: Vec<usize> = if thorough { (0..192).collect() } else { (0..64).chain((128..192).step_by(4)).collect() };
+    let variants: Vec<usize> = if thorough { (0..192).collect() } else { (0..64).chain((128..192).step_by(8)).collect() };
     // split each group's variants over worker processes
     let workers = 16usize;
-    let per_group = (workers / groups.len()).max(1);
-    let mut jobs: Vec<(usize, usize, Vec<usize>)> = Vec::new();
+    // leave four worker slots for the Debug-logger jobs so that everything runs in one wave
+    let per_group = ((workers - 4) / groups.len()).max(1);
+    let mut jobs: Vec<(usize, usize, Vec<usize>, bool)> = Vec::new();
     for (si, ri) in &groups {
         let chunk = (variants.len() + per_group - 1) / per_group;
         for c in variants.chunks(chunk) {
-            jobs.push((*si, *ri, c.to_vec()));
+            jobs.push((*si, *ri, c.to_vec(), false));
+        }
+    }
+    // the same refusals with a logger installed at Debug level (an embedding application's usual setting):
+    // every 4th position in quick, all in thorough, lower-case family
+    {
+        let dbg_variants: Vec<usize> = if thorough { (0..64).collect() } else { (0..64).step_by(4).collect() };
+        let (si, ri) = groups[0];
+        for c in dbg_variants.chunks(4) {
+            jobs.push((si, ri, c.to_vec(), true));
         }
     }
     let outputs: Vec<(usize, usize, Vec<serde_json::Value>)> = {
@@ -343,13 +360,14 @@ pub fn run(ctx: &Ctx) -> Report {
         let pool = rayon::ThreadPoolBuilder::new().num_threads(workers).build().unwrap();
         pool.install(|| {
             jobs.par_iter()
-                .map(|(si, ri, vs)| {
+                .map(|(si, ri, vs, dbg)| {
                     let list = vs.iter().map(|v| v.to_string()).collect::<Vec<_>>().join(",");
                     let out = std::process::Command::new(&ship)
                         .arg("--c07-tracer")
                         .arg(si.to_string())
                         .arg(ri.to_string())
                         .arg(list)
+                        .arg(if *dbg { "debug" } else { "off" })
                         .output();
                     match out {
                         Ok(o) if o.status.success() => {
@@ -421,7 +439,7 @@ pub fn run(ctx: &Ctx) -> Report {
     Report {
         stats: st,
         rule: format!(
-            "for each of {} (request, key) groups ({}): wrong signatures of the correct length — only position p wrong for every p in 0..63{} — substituted within the character's class (digit->digit, letter->letter), in lower case and (every 4th position in quick, all in thorough) with the letters in upper case, each family compared with its own all-wrong reference; each is validated in a forked, warmed-up child of a single-threaded tracer (ship-profile build, logger off, byte-wise early-exit memcmp/bcmp linked in) and single-stepped under ptrace from just before to just after sigv4_validate_request; every trace must have the same length and the same RIP-sequence hash as the group's reference trace (all 64 characters wrong), which is itself traced twice to prove the apparatus deterministic. states = distinct (group, trace hash); transitions = machine instructions stepped",
+            "for each of {} (request, key) groups ({}): wrong signatures of the correct length — only position p wrong for every p in 0..63{} — substituted within the character's class (digit->digit, letter->letter), in lower case and (every 8th position in quick, all in thorough) with the letters in upper case, each family compared with its own all-wrong reference; the lower-case family is traced again with a logger installed at Debug level that formats every record; each is validated in a forked, warmed-up child of a single-threaded tracer (ship-profile build, logger off unless stated, byte-wise early-exit memcmp/bcmp linked in) and single-stepped under ptrace from just before to just after sigv4_validate_request; every trace must have the same length and the same RIP-sequence hash as the group's reference trace (all 64 characters wrong), which is itself traced twice to prove the apparatus deterministic. states = distinct (group, trace hash); transitions = machine instructions stepped",
             groups.len(),
             if thorough { "GET vanilla, POST body, query carrier x 2 secrets" } else { "GET vanilla, first secret" },
             if thorough { ", and positions p..63 all wrong for every p" } else { "" }
